@@ -183,17 +183,18 @@ class MGroup:
 class MTask:
     __slots__ = (
         "name", "gen", "stack", "shield", "foreign", "foreign_at", "state", "wake_at", "outcome", "marks", "group",
-        "last_bare_cp_at", "signal_at", "waiting_on",
+        "last_bare_cp_at", "signal_at", "waiting_on", "finished_at",
     )  # fmt: skip
 
     def __init__(self, name: str) -> None:
         self.name = name
+        self.finished_at: int | None = None
         self.gen: Iterator[Any] | None = None
         self.stack: list[MScope] = []
         self.shield = 0
         self.foreign = False
         self.foreign_at: int | None = None
-        self.state = "new"  # new | ready | running | cp | sleep | groupwait | cleanup | done
+        self.state = "new"  # new | ready | intr | running | cp | sleep | groupwait | cleanup | done
         self.wake_at: int | None = None
         self.outcome: str | None = None
         self.marks: list[tuple[int, int]] = []
@@ -254,20 +255,22 @@ class _Sim:
         """target's cancellation state changed; wake it if it is parked in an interruptible wait and due"""
         res = self.res
         state = target.state
-        if target is self.current or state == "ready":
-            if cross_task or target is not self.current:
-                target.signal_at = self.now
         if cross_task:
-            if state == "new":
+            if target is self.current:
+                target.signal_at = self.now
+            elif state == "new":
                 res.racy = True
                 res.notes.append(f"{target.name}: cancelled before it started")
-            elif state == "cp" or (target is not self.current and target.last_bare_cp_at == self.now):
+            elif state == "ready":
+                res.racy = True
+                res.notes.append(f"{target.name}: cross-task cancellation after its wait completed, before it resumed")
+            elif state == "cp" or target.last_bare_cp_at == self.now:
                 res.racy = True
                 res.notes.append(f"{target.name}: cross-task cancellation while passing a bare checkpoint")
         if state == "done" or not target.due():
             return
         if state in ("sleep", "groupwait"):
-            target.state = "ready"
+            target.state = "intr"
             target.wake_at = None
             self.ready.append((target, _Interrupt()))
         # state == "cp": already queued, the interrupt is decided when it is resumed
@@ -318,8 +321,7 @@ class _Sim:
         for s in task.stack:
             if s.cancel_called:
                 s.suspended_while_cancelled = True
-        if task.due():
-            raise _Interrupt()
+        # always park: whatever else is runnable in this instant runs before an interrupt is delivered here
         if dur == 0:
             yield ("cp",)
         else:
@@ -414,9 +416,10 @@ class _Sim:
                 for s in task.stack:
                     if s.cancel_called:
                         s.suspended_while_cancelled = True
-                if task.due():
-                    raise _Interrupt()
                 yield ("groupwait", grp)
+            elif task.pending() and any(c.finished_at == self.now for c in grp.children):
+                self.res.racy = True
+                self.res.notes.append(f"{task.name}: leaves a task group in the instant its last child finished, with a cancellation pending")
         except _Interrupt as exc:
             interrupt = exc
         if interrupt is None:
@@ -466,25 +469,32 @@ class _Sim:
             return
         self.current = None
         kind = req[0]
-        if kind == "cp":
+        if kind in ("groupwait", "cleanup"):
+            grp: MGroup = req[1]
+            if not grp.unfinished():
+                task.state = "ready"
+                self.ready.append((task, None))
+                return
+            task.waiting_on = grp
+            if kind == "cleanup":
+                task.state = "cleanup"
+                return
+        if task.due():
+            # parked in an interruptible wait while already due: interrupted once the other runnable tasks have run
+            task.state = "intr"
+            self.ready.append((task, _Interrupt()))
+        elif kind == "cp":
             task.state = "cp"
             self.ready.append((task, None))
         elif kind == "sleep":
             task.state = "sleep"
             task.wake_at = self.now + req[1]
-        elif kind in ("groupwait", "cleanup"):
-            grp: MGroup = req[1]
-            if not grp.unfinished():
-                task.state = "ready"
-                self.ready.append((task, None))
-            else:
-                task.state = kind
-                task.waiting_on = grp
-        else:  # pragma: no cover
-            raise ValueError(req)
+        else:
+            task.state = "groupwait"
 
     def finish(self, task: MTask) -> None:
         task.state = "done"
+        task.finished_at = self.now
         grp = task.group
         if grp is not None and not grp.unfinished():
             parent = grp.parent
@@ -510,7 +520,7 @@ class _Sim:
                     res.notes.append("model: step budget exhausted")
                     return res
                 task, exc = self.ready.popleft()
-                if exc is not None and task.state != "ready":
+                if exc is not None and task.state != "intr":
                     continue  # stale wake-up
                 self.step(task, exc)
             if main.state == "done":
